@@ -113,3 +113,16 @@ Example idempotent_min_example :
   fst (fill_depressions 3 3 elv (-9999) 8 1 []) = [5;4;5; 5;4;5; 5;5;5] /\
   fst (fill_depressions 3 3 (fst (fill_depressions 3 3 elv (-9999) 8 1 [])) (-9999) 8 1 []) = [5;4;5; 5;4;5; 5;5;5].
 Proof. vm_compute. split; reflexivity. Qed.
+
+(* dem.fill_depressions (with gis_utils.get_edge) regenerated from the source for the modelled options (max_depth = -1, no
+   elv_max; generated/GenHeap.v, tools/gen_heap.py: a heapq heap is a list, heappop takes the lexicographically least entry)
+   IS the model; Some _ also says that the queue of the source runs empty *)
+From PF Require Import GenHeapFloodEq.
+From PFG Require Import GenHeap.
+Theorem gen_fill_depressions_eq : forall (nrow ncol : nat) (elv : list Z) (nodata conn : Z),
+  length elv = (nrow * ncol)%nat -> conn = 4 \/ conn = 8 -> forall (mode : Z) (pits : list nat),
+  (mode = 1 -> exists i, (i < nrow * ncol)%nat /\ is_edge nrow ncol elv nodata conn i = true) ->
+  gen_fill_depressions nrow ncol elv (mode =? 1) (if mode =? 2 then Some pits else None) nodata conn =
+  Some (fill_depressions nrow ncol elv nodata conn mode pits).
+Proof. exact GenHeapFloodEq.gen_fill_depressions_eq. Qed.
+Print Assumptions gen_fill_depressions_eq.
